@@ -135,7 +135,8 @@ def mutation(draw, kind: str, info: dict, cur: Any):
     if kind == "bytes":
         dct = info["dop"]["dct"]
         cur_b = bytes(cur) if isinstance(cur, (bytes, bytearray)) else b""
-        opts = [("bytes-longer", cur_b + b"\x01"), ("bytes-shorter", cur_b[:-1] if cur_b else None),
+        opts = [("bytes-longer", cur_b + b"\x01"), ("bytes-much-longer", cur_b + b"\x01\x02\x03\x04\x05\x06\x07\x08"),
+                ("bytes-shorter", cur_b[:-1] if cur_b else None),
                 ("bytes-wrong-type:str", cur_b.hex() or "00"), ("bytes-wrong-type:int", 5), ("bytes-wrong-type:None", None),
                 ("bytes-wrong-type:list", list(cur_b)), ("bytes-bytearray", bytearray(cur_b))]
         if dct["t"] == "minmax":
@@ -155,7 +156,7 @@ def mutation(draw, kind: str, info: dict, cur: Any):
     if kind == "str":
         dct = info["dop"]["dct"]
         cur_s = cur if isinstance(cur, str) else ""
-        opts = [("str-longer", cur_s + "A"), ("str-shorter", cur_s[:-1] if cur_s else None),
+        opts = [("str-longer", cur_s + "A"), ("str-much-longer", cur_s + "ABCDEFGH"), ("str-shorter", cur_s[:-1] if cur_s else None),
                 ("str-wrong-type:bytes", cur_s.encode("utf-8")), ("str-wrong-type:int", 7), ("str-wrong-type:None", None),
                 ("str-wrong-type:list", [cur_s]), ("str-unencodable", (cur_s[:-1] if cur_s else "") + "\U0001F600"),
                 ("str-unencodable-cjk", (cur_s[:-1] if cur_s else "") + "中"), ("str-surrogate", "\ud800")]
